@@ -21,6 +21,11 @@ C11.prime   in server_request every use of the signing context after the MAC
 C11.time48  Time48::into_octets puts bits 47-8i..40-8i of the value into octet
             i (per-octet stores or to_be_bytes copies); from_slice reads the
             same layout.
+C11.vars    CLASS and TTL of the TSIG record are signed TSIG variables
+            (RFC 8945 4.3.3).  The digest feeds the constants ANY and 0 rather
+            than the record's fields, so extraction must insist that the
+            record carries exactly those values -- otherwise six octets of a
+            signed message can be altered without the MAC check noticing.
 C11.panic   no unwrap/expect in the TSIG module on something read from a
             message (TSIG extraction, parsing): a request that was *rejected*
             for a missing, misplaced or malformed TSIG record must still get
@@ -66,6 +71,7 @@ def run(ctx):
     rule_canon(ctx, F)
     rule_chain(ctx, F)
     rule_panic(ctx, F)
+    rule_vars(ctx, F)
     rule_alg(ctx, F)
     rule_prime(ctx, F)
     rule_time48(ctx, F)
@@ -527,6 +533,47 @@ def rule_panic(ctx, F):
                    detail=PANIC_AUDIT.get((p.split("::")[-1], sname)))
     ctx.ob(R, "tsig", "scanned", scope >= 40, "only %d bodies of the TSIG module found" % scope, nontrivial=False,
            detail="%d bodies of src/tsig scanned, %d unwrap/expect of message-derived results" % (scope, n))
+
+
+def rule_vars(ctx, F):
+    R = "C11.vars"
+    ctx.floor(R, 2)
+    sg = F.one_body(r"^tsig::Variables::sign$")
+    fm = F.one_body(r"^tsig::MessageTsig::<'a, Octs>::from_message$")
+    if not ctx.anchor(R, "Variables::sign and MessageTsig::from_message", sg is not None and fm is not None):
+        return
+    # what does the digest feed for CLASS and TTL?  constants, or something read from the record?
+    fed = []
+    for bb, t in sg.calls():
+        if not (t["fn"] or "").endswith("Context::update") or len(t["args"]) < 2:
+            continue
+        s = show(deep_strip(sg.term_of_operand(t["args"][1])))
+        fed.append(s)
+    const_class = any(re.search(r"to_be_bytes\((Class::to_int\()?.*(255|ANY)", s) for s in fed)
+    const_ttl = any(re.search(r"<impl u32>::to_be_bytes\(0\)", s) for s in fed)
+    if not (const_class or const_ttl):
+        ctx.ob(R, sg, "CLASS and TTL digested from the record", True, detail="no constant CLASS / TTL in Variables::sign")
+        ctx.ob(R, sg, "(second obligation kept for the floor)", True, nontrivial=False)
+        return
+    oks = [r[0] for r in return_assignments(fm) if r[2] == "Ok"]
+    if not ctx.anchor(R, "Ok return of from_message", bool(oks), fm.where()):
+        return
+    facts = []
+    for bi in oks:
+        for tt, v, _ in facts_at(fm, bi, F):
+            facts.append((show(deep_strip(tt)), v))
+    def checked(field, want):
+        for s, v in facts:
+            if re.search(r"Record::<.*>::%s\(|::%s\(" % (field, field), s) and isinstance(v, bool):
+                return True
+        return False
+    for field, is_const, what in (("class", const_class, "CLASS is ANY"), ("ttl", const_ttl, "TTL is 0")):
+        if not is_const:
+            continue
+        ctx.ob(R, fm, "extraction insists that the record's %s" % what, checked(field, None),
+               "Variables::sign digests a constant for the TSIG record's %s, and MessageTsig::from_message accepts any value in "
+               "the record: the %s octets of a signed message can be altered without failing verification"
+               % (field.upper(), field.upper()), fm.where(oks[0]))
 
 
 def rule_alg(ctx, F):
